@@ -67,6 +67,12 @@ partial def pInts : List Char → Option (List Int × List Char)
 mutual
   partial def pTy : List Char → Option (KTy × List Char)
     | 's' :: r => some (.str, r)
+    | 'w' :: r => some (.wstr, r)
+    -- final union: UF<disc>{<id>[d][<labels>]:<ty>,...}  (UA / UM are answered `unmodelled` before parsing)
+    | 'U' :: 'F' :: r => match pPrim r with
+      | some (d, '{' :: '}' :: r1) => some (.union d .nil, r1)
+      | some (d, '{' :: r1) => (pBs r1).map fun (bs, r2) => (.union d bs, r2)
+      | _ => none
     | 'Q' :: r =>
       let r1 := (takeDigits r).2
       match r1 with
@@ -88,11 +94,36 @@ mutual
         | '}' :: r1 => some (.struct ext .nil, r1)
         | _ => (pMs r).map fun (ms, r1) => (.struct ext ms, r1)
     | 'E' :: r => match pPrim r with
-      | some (h, '[' :: ']' :: r1) => if h == .i8 || h == .i16 || h == .i32 then some (.enum h [], r1) else none
-      | some (h, '[' :: r1) =>
-        if h == .i8 || h == .i16 || h == .i32 then (pInts r1).map fun (ls, r2) => (.enum h ls, r2) else none
-      | _ => none
+      | some (h, r0) =>
+        -- optional extensibility of the enumeration type: `a` (appendable) / `m` (mutable), none = final
+        let (x, r0) : Ext × List Char := match r0 with
+          | 'a' :: r' => (.appendable, r')
+          | 'm' :: r' => (.mutable, r')
+          | r' => (.final, r')
+        if !(h == .i8 || h == .i16 || h == .i32) then none else
+        (match r0 with
+         | '[' :: ']' :: r1 => some (.enum h [] x, r1)
+         | '[' :: r1 => (pInts r1).map fun (ls, r2) => (.enum h ls x, r2)
+         | _ => none)
+      | none => none
     | cs => (pPrim cs).map fun (p, r) => (.prim p, r)
+  partial def pBs : List Char → Option (Bs × List Char)
+    | cs => match pNat cs with
+      | none => none
+      | some (id, r) =>
+        let (dflt, r1) : Bool × List Char := match r with
+          | 'd' :: r' => (true, r')
+          | r' => (false, r')
+        let lr : Option (List Int × List Char) := match r1 with
+          | '[' :: ']' :: r' => some ([], r')
+          | '[' :: r' => pInts r'
+          | r' => some ([], r')
+        match lr with
+        | some (ls, ':' :: r2) => match pTy r2 with
+          | some (t, ',' :: r3) => (pBs r3).map fun (rest, r4) => (.cons id ls dflt t.erase rest, r4)
+          | some (t, '}' :: r3) => some (.cons id ls dflt t.erase .nil, r3)
+          | _ => none
+        | _ => none
   partial def pMs : List Char → Option (KMs × List Char)
     | cs => match pNat cs with
       | none => none
@@ -116,6 +147,15 @@ mutual
       let (h, r1) := takeHex r
       (unhexL h).map fun bs => (.str bs, r1)
     | '_' :: r => some (.absent, r)
+    -- union value <disc> or <disc,branch id:value>
+    | '<' :: r => match pNat r with
+      | some (d, '>' :: r1) => some (.struct [.num d], r1)
+      | some (d, ',' :: r1) => match pNat r1 with
+        | some (id, ':' :: r2) => match pVal r2 with
+          | some (v, '>' :: r3) => some (.struct [.num d, .num id, v], r3)
+          | _ => none
+        | _ => none
+      | _ => none
     | '[' :: ']' :: r => some (.list [], r)
     | '[' :: r => (pVals ']' r).map fun (vs, r1) => (.list vs, r1)
     | '{' :: '}' :: r => some (.struct [], r)
@@ -147,11 +187,36 @@ mutual
     | .absent => "_"
 end
 
+def bsTyOf (id : Nat) : Bs → Option Ty
+  | .nil => none
+  | .cons id' _ _ t r => if id' == id then some t else bsTyOf id r
+
+def msTys : Ms → List Ty
+  | .nil => []
+  | .cons _ _ _ t r => t :: msTys r
+
+/-- type-directed printing (union values are `<disc,id:value>`) -/
+partial def showTV : Ty → Val → String
+  | .union _ bs, .struct [.num d, .num id, v] =>
+    "<" ++ toString d ++ "," ++ toString id ++ ":" ++ (match bsTyOf id bs with | some t => showTV t v | none => showVal v) ++ ">"
+  | .union _ _, .struct [.num d] => "<" ++ toString d ++ ">"
+  | .struct _ ms, .struct fs =>
+    "{" ++ String.intercalate "," (((msTys ms).zip fs).map fun (t, f) => showTV t f) ++ "}"
+  | .seq el, .list vs => "[" ++ String.intercalate "," (vs.map (showTV el)) ++ "]"
+  | .arr el _, .list vs => "[" ++ String.intercalate "," (vs.map (showTV el)) ++ "]"
+  | _, v => showVal v
+
 def showErr : Err → String
   | .notEnoughData => "err NotEnoughData"
   | .invalidData => "err InvalidData"
   | .invalidType => "err InvalidType"
   | .pidNotFound => "err PidNotFound"
+
+def showResT (t : Ty) : Res Val → String
+  | .ok v _ => "ok " ++ showTV t v
+  | .err e _ => showErr e
+  | .panic .alloc => "ALLOC-LIMIT"
+  | .panic _ => "PANIC"
 
 def showRes : Res Val → String
   | .ok v _ => "ok " ++ showVal v
@@ -169,7 +234,11 @@ mutual
     | .seq el => tyOk el
     | .arr el _ => tyOk el
     | .struct _ ms => msOk ms
+    | .union _ bs => bsOk bs
     | _ => true
+  def bsOk : Bs → Bool
+    | .nil => true
+    | .cons id _ _ t r => id != 0 && tyOk t && bsOk r
   def msOk : Ms → Bool
     | .nil => true
     | .cons _ _ _ t r => tyOk t && msOk r
@@ -199,6 +268,9 @@ def showHandle : Option (Except KErr Bytes) → String
 def flatIds (kt : KTy) : List Nat := (flatTy kt).map fun k => k.id
 
 def step (cfg : Cfg) (line : String) : String :=
+  -- unions are not modelled: the harness answer of such a line is checked by the oracle only
+  -- appendable / mutable unions are not modelled: the harness answer of such a line is checked by the oracle only
+  if (line.splitOn "UA").length > 1 || (line.splitOn "UM").length > 1 then "unmodelled" else
   match toks line with
   | ["ser", ver, en, ty, val] => match pVer ver, pEnd en, parseTy ty, parseVal val with
     | some ver, some e, some t, some v => match serLine cfg ver e t v with
@@ -206,7 +278,7 @@ def step (cfg : Cfg) (line : String) : String :=
       | .inr b => "ok " ++ hexOf b
     | _, _, _, _ => "bad-op"
   | ["de", ty, h] => match parseTy ty, unhex h with
-    | some t, some b => if isStruct t then showRes (deTop cfg t b) else "bad-op"
+    | some t, some b => if isStruct t then showResT t (deTop cfg t b) else "bad-op"
     | _, _ => "bad-op"
   | ["rt", ver, en, ty, val] => match pVer ver, pEnd en, parseTy ty, parseVal val with
     | some ver, some e, some t, some v => match serLine cfg ver e t v with
@@ -214,7 +286,7 @@ def step (cfg : Cfg) (line : String) : String :=
       | .inr b =>
         -- the payload, the payload without the recorded padding, and with one byte less
         let pad := (b.getD 3 0).toNat
-        let d (k : Nat) : String := showRes (deTop cfg t (b.take (b.length - k)))
+        let d (k : Nat) : String := showResT t (deTop cfg t (b.take (b.length - k)))
         let ds := [d 0, d pad, d (pad + 1)]
         -- the harness worker dies on an allocation above the limit: the whole line is `ALLOC-LIMIT`
         if ds.contains "ALLOC-LIMIT" then "ALLOC-LIMIT"
@@ -232,7 +304,7 @@ def step (cfg : Cfg) (line : String) : String :=
   | ["cmp", ver, en, ty, val, h1, h2] => match pVer ver, pEnd en, parseTy ty, parseVal val, unhex h1, unhex h2 with
     | some ver, some e, some t, some v, some b1, some b2 =>
       if !isStruct t then "bad-op" else
-      let d (b : Bytes) : String := showRes (deTop cfg t b)
+      let d (b : Bytes) : String := showResT t (deTop cfg t b)
       let s := match serLine cfg ver e t v with
         | .inl s => s
         | .inr b => "ok " ++ hexOf b
